@@ -29,11 +29,11 @@ ASSUME NHTable[N3].home = NHTable[N1].home /\ NHTable[A1].home = NHTable[N1].hom
 ASSUME \A nm \in NameU : \A sp \in Spellings : SameName(nm, Spell(nm, sp)) /\ FKTable[Spell(nm, sp)] = FKTable[nm]
                                                /\ NHTable[Spell(nm, sp)].home = NHTable[nm].home
 
-Small == SectorSize = 4
-\* (the quick tier drops two of the lengths; VERIF_TIER is set by vcheck)
+\* (the quick tier drops two of the lengths and one method; VERIF_TIER is set by vcheck)
 QuickTier == "VERIF_TIER" \in DOMAIN IOEnv /\ IOEnv.VERIF_TIER = "quick"
+Small == SectorSize = 4
 MCLens == IF Small THEN (IF QuickTier THEN {0, 3, 4, 5, 9, 13} ELSE {0, 1, 3, 4, 5, 8, 9, 13}) ELSE {SectorSize, SectorSize + 1, 2 * SectorSize + 200}
-MCMethods == {0, ZLIB, SPARSE, PKWARE, ADPCM_STEREO, ADPCM_STEREO + BZIP2}
+MCMethods == {0, ZLIB, PKWARE, ADPCM_STEREO, ADPCM_STEREO + BZIP2} \cup (IF QuickTier THEN {} ELSE {SPARSE})
 F1Set == {[name |-> N1, len |-> n, cls |-> cl, method |-> m, enc |-> en] :
             n \in MCLens, cl \in {"run", "edge", "random"}, m \in MCMethods, en \in {"plain", "enc", "encfix"}}
 F2 == [name |-> N2, len |-> 5, cls |-> "run", method |-> ZLIB, enc |-> "encfix"]
